@@ -4,6 +4,7 @@ pub mod parse;
 pub mod search;
 pub mod builtins;
 pub mod lists;
+pub mod textprops;
 
 pub fn make(prop: &str, tier: Tier, seed: u64) -> Option<Box<dyn Workload>> {
     Some(match prop {
@@ -24,6 +25,9 @@ pub fn make(prop: &str, tier: Tier, seed: u64) -> Option<Box<dyn Workload>> {
         "C16" => Box::new(builtins::ListBips::new(builtins::ListProp::C16, tier, seed)),
         "C17" => Box::new(builtins::ListBips::new(builtins::ListProp::C17, tier, seed)),
         "C18" => Box::new(parse::C18::new(tier, seed)),
+        "C19" => Box::new(textprops::C19::new(tier, seed)),
+        "C20" => Box::new(textprops::C20::new(tier, seed)),
+        "C21" => Box::new(textprops::C21::new(tier, seed)),
         _ => return None,
     })
 }
